@@ -277,5 +277,31 @@ theorem x10Key_wf (code line col : Nat) : (x10Key code line col).WF := by
       · simp only [h3, if_true]; refine ⟨by omega, by omega, fun _ => by omega⟩
       · simp only [h3, if_false]; refine ⟨by decide, by decide, ?_⟩; intro h; rcases h with h | h <;> cases h
 
+/-- Reports that may follow the press of button `p + 1` without changing what is held: drags of that button, and
+    turns of the wheel. -/
+def KeepsHeld (p code : Nat) : Prop :=
+  (code &&& 0xc3 = p ∧ code &&& 0x20 ≠ 0) ∨ ((code &&& 0xc3 = 64 ∨ code &&& 0xc3 = 65) ∧ code &&& 0x20 = 0)
+
+open InputXlate in
+theorem keepsHeld_spec (p : Nat) (hp : p < 3) (code line col : Nat) (hk : KeepsHeld p code) :
+    (Spec.keyEvents [p + 1] (x10Key code line col)).1 = [p + 1] := by
+  rcases hk with ⟨hc, hm⟩ | ⟨hw, hm⟩
+  · have he : x10Event code = TERMKEY_MOUSE_DRAG := by
+      unfold x10Event; simp [hc, hp, hm]
+    have hbt : x10Button code = (p : Int) + 1 := by unfold x10Button; simp [hc, hp]
+    unfold x10Key
+    rw [he, hbt]
+    have : ((p : Int) + 1).toNat = p + 1 := by omega
+    simp [Spec.keyEvents, TERMKEY_MOUSE_DRAG, TERMKEY_MOUSE_PRESS, this, Spec.insert]
+  · have he : x10Event code = TERMKEY_MOUSE_PRESS := by
+      unfold x10Event
+      rcases hw with hw | hw <;> simp [hw, hm]
+    have hbt : x10Button code ≥ 4 := by
+      unfold x10Button
+      rcases hw with hw | hw <;> simp [hw]
+    unfold x10Key
+    rw [he]
+    simp [Spec.keyEvents, hbt]
+
 end WinInput
 end Tickit
